@@ -97,7 +97,7 @@ def obsToJson : Obs → Json
   | .wf a => Json.mkObj [("k", "wf"), ("a", .arr (a.map coefToJson).toArray)]
 
 def errToString : Err → String
-  | .badref => "err:badref" | .value => "err:value" | .runtime => "err:runtime" | .notimpl => "err:notimpl"
+  | .badref => "err:badref" | .value => "err:value" | .runtime => "err:runtime" | .notimpl => "err:notimpl" | .index => "err:index"
 
 def outcomeToJson : Outcome → Json
   | .err e => .str (errToString e)
@@ -168,7 +168,7 @@ def callOfJson (h : Heap) (pool : Array (Option Ref)) (j : Json) : Except String
   | "meas_representing" =>
     pure (.measRepresenting (r 0) (← natOfJson (← field j "n")) (← bitsListOfJson (← field j "samples")))
   | "dist_new" => pure (.distNew (r 0) (← boolOfJson (← field j "normalize")))
-  | "dist_sub" => pure (.distSub (r 0) (← listOfJson natOfJson (← field j "qubits")))
+  | "dist_sub" => pure (.distSub (r 0) (← listOfJson intOfJson (← field j "qubits")))
   | "wf_new" => pure (.wfNew (r 0))
   | "wf_bind" => pure (.wfBind (r 0))
   | "meas_counts" => pure (.measCounts (r 0))
@@ -209,7 +209,7 @@ def handle (op : String) (j : Json) : Except String Json := do
   | "history" => runHistory (← arrOfJson (← field j "calls"))
   | "old_subdistribution" =>
     -- the negative witness, executable: marginalise with the code before d900b77
-    let d ← ddictOfJson (← field j "d"); let qs ← listOfJson natOfJson (← field j "qubits")
+    let d ← ddictOfJson (← field j "d"); let qs ← listOfJson intOfJson (← field j "qubits")
     let h := (run [] [.litDict d, .distNew 0 true]).1
     let h' := (effectsSubPop h 2 qs).1
     pure (Json.mkObj [("before", optObsToJson (view? h 2)), ("after", optObsToJson (view? h' 2))])
